@@ -3,6 +3,7 @@ package alephium
 import (
 	"context"
 	"encoding/hex"
+	"time"
 
 	sdk "github.com/alephium/go-sdk"
 	"github.com/alephium/wormhole-fork/node/pkg/vaa"
@@ -60,9 +61,13 @@ func (w *Watcher) handleObsvRequest(ctx context.Context, logger *zap.Logger, cli
 				continue
 			}
 
+			// same wall-clock floor as the polling path (mainnet transfers are held for at least
+			// max(consistency level, 205) block intervals)
+			now := time.Now().UnixMilli()
 			confirmed := make([]*reobservedEvent, 0)
 			for _, event := range events {
-				if event.header.Height+int32(event.confirmations) <= *currentHeight {
+				duration := getConfirmationDuration(w.isMainnet, event.isTransfer, event.confirmations)
+				if event.header.Height+int32(event.confirmations) <= *currentHeight && event.header.Timestamp+duration <= now {
 					logger.Info("re-observed event",
 						zap.String("txId", txId),
 						zap.String("blockHash", blockHash),
@@ -155,6 +160,7 @@ func (w *Watcher) getGovernanceEventsByTxId(
 		reobservedEvents = append(reobservedEvents, &reobservedEvent{
 			&contractEvent,
 			msg.consistencyLevel,
+			msg.IsTransferTokenVAA(),
 			header,
 			txId,
 		})
@@ -165,6 +171,7 @@ func (w *Watcher) getGovernanceEventsByTxId(
 type reobservedEvent struct {
 	*sdk.ContractEventByTxId
 	confirmations uint8
+	isTransfer    bool
 	header        *sdk.BlockHeaderEntry
 	txId          string
 }
